@@ -4,6 +4,10 @@ import json, os
 HERE = os.path.dirname(os.path.dirname(os.path.abspath(__file__)))
 
 CLAIMED = {
+ "C20": dict(level="exploration", ref="§4 C20",
+   technique="deterministic simulation: tasks run as goroutines under a baton-passing cooperative scheduler that switches only at AST-inserted yield points according to an explicit seeded preemption plan (random / PCT-style / biased to in-flight-state sites); solo-vs-interleaved result equality, shared-state fingerprints at every context switch, step budgets; complemented by the same scenarios under the Go race detector with real parallelism (labelled runtime monitoring)",
+   text="Stage A decides every interleaving itself: exactly one task goroutine runs at a time and the baton moves at yield points inside library calls according to the scenario's explicit plan, so a failing schedule replays exactly and is minimised (fewer preemptions, fewer tasks, fewer steps). Oracles: each task's every result equals its solo run bitwise (RNG-derived values by shape), the reflected state of every shared tensor / layer / activation / loss is unchanged at every switch and at the end, no panic, bounded steps. Stage B re-runs the same scenarios on an uninstrumented -race build with real parallelism to catch writes that never change a value. Sampling over programs and schedules.",
+   note="Trusted: the scheduler (one runnable goroutine at a time), reflect-based fingerprints. Yield points exist only in qeep's own code. Stage B's interleavings are uncontrolled."),
  "C18": dict(level="exploration", ref="§4 C18",
    technique="deterministic simulation of the library's only nondeterministic input: the global RNG is pinned through its seed seam (one run seed = one replayable sample); seeded search over seeds x configurations x call orders with deterministic per-call checks and 7-sigma statistical checks per pooled sample",
    text="Each run seeds the library's RNG, issues 50-400 initializer / RandU / RandN calls from 1-3 clients in a scheduler-chosen order and pools the draws per configuration. Every call is checked for shape, tracking (observable through back-propagation), support with the documented bound, the Full constant and freshness; every pool of >= 20000 elements for mean, variance, KS distance, row-major lag-1 autocorrelation and cross-call correlation at 7 standard errors of the configured distribution. A failing run replays exactly from its seed. Sampling; no fault kind applies.",
